@@ -1,6 +1,6 @@
 #!/bin/bash
 # seedin.sh <Cxx> [suffix] [checks...]: take the deliverables of a round-3 sub-agent worktree into seeded/<Cxx>-<suffix> and confirm them.
-P="$1"; S="${2:-e}"; shift; shift || true
+P="$1"; S="${2:-f}"; shift; shift || true
 D=/verif/seeded/$P-$S
-mkdir -p "$D" && cp /tmp/wt/r5-$P/.seed/patch.diff /tmp/wt/r5-$P/.seed/meta.json /tmp/wt/r5-$P/.seed/*_test.go "$D"/ || exit 2
+mkdir -p "$D" && cp /tmp/wt/r6-$P/.seed/patch.diff /tmp/wt/r6-$P/.seed/meta.json /tmp/wt/r6-$P/.seed/*_test.go "$D"/ || exit 2
 /verif/tools/seedcheck.sh "$D" "$P" "$@" 2>&1 | tail -4
